@@ -2,6 +2,7 @@ import Driver.Base
 import Driver.ZoneCmds
 import Driver.CacheCmds
 import Driver.UpstreamCmds
+import Driver.ResolveCmds
 import Resolved.Spec.RefDecode
 
 namespace Resolved.Driver
@@ -115,6 +116,7 @@ def dispatch (fields : List String) : Result :=
   | ["cache.inv", _, impl] => cmdCacheInv impl
   | ["upstream.validate", q, mc, m, impl] => cmdValidate q mc m impl
   | ["upstream.matches", a, b, impl] => cmdMatches a b impl
+  | ["resolve", fam, mode, zones, cache, script, q, expect, impl] => cmdResolve fam mode zones cache script q expect impl
   | cmd :: _ => bad ("unknown " ++ cmd)
   | [] => bad "empty"
 
